@@ -14,7 +14,11 @@ Implementation driven (all in-process, real code):
     an instance inherits from its package) to a scratch directory, Dosini.load_from_directory(dir,
     is_instance=True), and the two documents compared through FlowIRConcrete: per component the resolved
     configuration, references and variables; environments, application dependencies, status, output;
- D. the same as C with hostile texts (%, =, :, #, ;, inner blanks) in values: the configparser text layer.
+ D. the same as C with hostile texts (%, =, :, #, ;, inner blanks, multi-line texts) in values, and, rarely, the texts
+    and variable names at the boundary of the guard of theorem C19_text_roundtrip (open findings F19e-F19h);
+ T. the configparser text layer alone (harness/c19_text.py): tables of sections through the real FlowConfigParser
+    (add_section/set/write, read) and hostile raw texts through its reader, against coq/Dosini/Text.v.
+The per-component model comparison of C/D goes through both layers (Model.via_file).
 """
 import copy
 import hashlib
@@ -26,6 +30,7 @@ import tempfile
 import common
 from common import cstr, clist, copt, cpair
 import c19_gen
+import c19_text
 from c19_gen import flatten, unflatten, cval
 
 PROP = 'C19'
@@ -34,17 +39,18 @@ ASSUMPTIONS = [
     'the translation tables of the model are regenerated from the code under test at every run (probing of the '
     'writers and of parse_component with typed sentinels); an option whose behaviour fits none of the codecs fails the '
     'generation and is reported as a broken proof obligation',
-    'the configparser text layer (file syntax, stripping of surrounding blanks, comment prefixes, interpolation '
-    'checks of cfg.set) is trusted: it is exercised by the instance streams C and D but not modelled',
+    'the configparser text layer (file syntax, stripping of surrounding blanks, comment prefixes, continuation lines, '
+    'interpolation checks of cfg.set) is modelled (coq/Dosini/Text.v) for byte strings with the ASCII blanks of str.isspace; '
+    'non-ASCII texts (Unicode blanks, encodings) are not generated',
     'floats are opaque: plain decimal notation, float(str(x)) == x assumed; int() literals are an optional minus sign '
     'and digits; texts matching the IndexAccess expression (x[0]) are not generated',
-    'texts with leading or trailing blanks are not expressible in the format (configparser strips the values it reads): '
-    'not generated; multi-line texts are not generated',
+    'texts with blanks at the end of a line, lines starting with a comment prefix, carriage returns and variable names that '
+    'are not ini keys are outside the guard of C19_text_roundtrip: generated rarely, attributed to the open findings F19e-F19h',
     'option values None (unset) are not written by the format: generated components never override a non-empty default '
     'with None; variables are compared by their text (the format stores text)',
     'instance dumps fold global variables into every stage: variables are compared per component after resolution',
 ]
-HEADER = 'Require Import V.Lib.JTree V.Dosini.Codec V.Dosini.Generated V.Dosini.Model.\nOpen Scope string_scope.'
+HEADER = 'Require Import V.Lib.JTree V.Dosini.Codec V.Dosini.Generated V.Dosini.Text V.Dosini.Model.\nOpen Scope string_scope.'
 
 # measured at import time, i.e. before main.py calls ctx.build_proofs()
 MEASURED, GEN_ERROR = c19_gen.regenerate(os.path.join(common.COQ, COQ_DIR))
@@ -86,7 +92,15 @@ SPECIAL = {
 }
 BARE_PERCENT = ['50% done', 'date +%Y-%m-%d']
 HOSTILE = ['100%%', 'a=b', 'k: v', 'x # not a comment', 'semi;colon', 'a  =  b : c', '[bracket]', 'tab\there',
-           'quote "q" \'s\'', 'back\\slash', '%(n)s%%', 'http://h:8080/p?a=b&c=d', '-x=1 --y:2']
+           'quote "q" \'s\'', 'back\\slash', '%(n)s%%', 'http://h:8080/p?a=b&c=d', '-x=1 --y:2',
+           'line one\nline two', 'a\n\nk = v\n[x] # no comment', '#first line may start with a hash\nsecond: line']
+# texts and variable names at the boundary of the guard of the text layer (Text.table_ok), by class of open finding
+BOUNDARY_TEXTS = {
+    'text_line_starts_with_comment_prefix': ['a\n#b\nc', 'set -e\n; note\nrun', 'x\n  # indented comment\ny'],
+    'text_with_blank_at_an_end_of_a_line': [' lead', 'trail ', 'a\n', 'a \nb', 'a\n  b', '\tx'],
+    'text_with_carriage_return': ['a\rb', 'dos\r\nline'],
+}
+BOUNDARY_NAMES = ['a:b', 'a=b', '#k', ';k', 'k ']
 
 
 # ------------------------------------------------------------------ helpers
@@ -303,6 +317,17 @@ def gen_doc(rng, cover, hostile=False):
     if not hostile and rng.random() < 0.06:
         comps[-1].setdefault('workflowAttributes', {})['restartHookOn'] = []
     gvars = dict(REF_VARS)
+    if hostile and rng.random() < 0.12:
+        # one text or one variable name outside the guard of the text layer
+        victim = rng.choice(comps)
+        if rng.random() < 0.75:
+            text = rng.choice(BOUNDARY_TEXTS[rng.choice(sorted(BOUNDARY_TEXTS))])
+            if rng.random() < 0.5:
+                victim.setdefault('command', {})['arguments'] = text
+            else:
+                victim.setdefault('variables', {})['edge'] = text
+        else:
+            victim.setdefault('variables', {})[rng.choice(BOUNDARY_NAMES)] = 'v'
     if hostile:
         gvars['hostile'] = rng.choice(HOSTILE)
         r = rng.random()
@@ -430,6 +455,54 @@ def bare_percent(x):
     return False
 
 
+def text_classes(doc):
+    """classes of the texts and variable names of a workflow that are outside the guard of the configparser text layer
+    (mirror of Text.value_ok / Text.key_ok, clause by clause)"""
+    WS = c19_text.WS
+    cl = set()
+
+    def text(v):
+        if not isinstance(v, str):
+            return
+        if '\r' in v:
+            # the file cannot be loaded at all: nothing else of this text is observed
+            cl.add('text_with_carriage_return')
+            return
+        ls = v.split('\n')
+        if any(l.strip(WS).startswith(('#', ';')) for l in ls[1:]):
+            cl.add('text_line_starts_with_comment_prefix')
+        if any(l != l.strip(WS) for l in ls) or v != v.rstrip(WS):
+            cl.add('text_with_blank_at_an_end_of_a_line')
+
+    def walk(x):
+        if isinstance(x, dict):
+            for k, v in x.items():
+                walk(v)
+        elif isinstance(x, (list, tuple)):
+            for v in x:
+                walk(v)
+        else:
+            text(x)
+
+    def names(d):
+        for k in (d or {}):
+            if not c19_text.key_ok(str(k)):
+                cl.add('variable_name_not_an_ini_key')
+
+    walk(doc)
+    for c in doc.get('components', []):
+        names(c.get('variables'))
+    for plat in doc.get('variables', {}).values():
+        names(plat.get('global'))
+        for sv in (plat.get('stages') or {}).values():
+            names(sv)
+    for plat in doc.get('environments', {}).values():
+        for env in (plat or {}).values():
+            names(env)
+    # a file that cannot be loaded hides every other difference
+    return sorted(cl, key=lambda c: (c != 'text_with_carriage_return', c))
+
+
 def classes_of_workflow(w):
     cl = []
     if bare_percent(w['doc']):
@@ -437,6 +510,7 @@ def classes_of_workflow(w):
     for c in w['doc']['components']:
         if c.get('workflowAttributes', {}).get('restartHookOn') == []:
             cl.append('restart_hook_on_emptied')
+    cl.extend(text_classes(w['doc']))
     known = set(MEASURED['known']) if MEASURED else set()
     doc = w['doc']
     names = set()
@@ -448,7 +522,9 @@ def classes_of_workflow(w):
             names |= set(sv)
     if names & known:
         cl.append('variable_named_like_an_option')
-    return cl
+    # attribution follows what is observed first: a file that cannot be written, then one that cannot be loaded
+    first = ['text_with_bare_percent', 'text_with_carriage_return']
+    return sorted(cl, key=lambda c: first.index(c) if c in first else len(first))
 
 
 def explore_instances(ctx, workflows, tag):
@@ -491,7 +567,7 @@ def explore_instances(ctx, workflows, tag):
             lc = loaded.get((c['stage'], c['name']))
             cin = ccomp(flatten(c), norm_vars(c.get('variables')))
             cout = copt(None if lc is None else ccomp(flatten(lc), norm_vars(lc.get('variables'))))
-            terms.append(cpair(cin, cout))
+            terms.append('(%s, %s, %s)' % (cstr(c['name']), cin, cout))
             keep.append((desc, c, lc))
         if ncomp >= 2:
             ctx.sample({'stream': tag, 'platform': w['platform'], 'components': ['stage%d.%s' % (c['stage'], c['name']) for c in doc['components']],
@@ -499,8 +575,9 @@ def explore_instances(ctx, workflows, tag):
     bad = ctx.model_mismatches(HEADER, terms, 'check_file_case', chunk=150, name='%s_inst' % tag)
     for k, i in enumerate(bad):
         desc, c, lc = keep[i]
-        ctx.disagree(dict(desc, component=c), lc, ctx.model_eval(HEADER, 'roundtrip_c (fst %s)' % terms[i])[:600] if k < 2 else '',
-                     'C19 instance files: Dosini.dump + load_from_directory per component vs Dosini.Model.roundtrip_c')
+        ctx.disagree(dict(desc, component=c), lc,
+                     ctx.model_eval(HEADER, "let '(n, c, _) := %s in via_file n c" % terms[i])[:600] if k < 2 else '',
+                     'C19 instance files: Dosini.dump + load_from_directory per component vs Dosini.Model.via_file (text layer + reader)')
 
 
 # ------------------------------------------------------------------ corpus (witnesses of repaired defects run first)
@@ -522,8 +599,10 @@ def run(ctx):
     ctx.rule = ('stream A: one expressible option x one value of its kind (constants of the type, variable references, '
                 'special values); B: random components (2..all options, 0..4 variables); C/D: generated workflows (1-3 stages, '
                 'options cycled so that every expressible option is used in every run, variables of all scopes, environments, '
-                'platform, blueprint, replication, status, output; D with hostile texts); non-trivial = at least one option, '
-                'variable or component; distinct by content')
+                'platform, blueprint, replication, status, output; D with hostile and multi-line texts, 12% with one text or variable name at '
+                'the boundary of the text layer); T: tables of sections (half inside the guard of C19_text_roundtrip, half with hostile '
+                'names/keys/values) and hostile raw texts through the real FlowConfigParser; non-trivial = at least one option, '
+                'variable, component or entry; distinct by content')
     gen_path = os.path.join(common.COQ, COQ_DIR, 'Generated.v')
     ctx.extra['generated_tables'] = {
         'regenerated_before_proof_build': True,
@@ -555,6 +634,7 @@ def run(ctx):
             flows.append(gen_doc(rng, order[i:i + 18]))
     explore_instances(ctx, flows, 'C')
     explore_instances(ctx, [gen_doc(rng, rng.sample(paths, 10), hostile=True) for _ in range(15 if quick else 150)], 'D')
+    c19_text.explore(ctx, 120 if quick else 1200, 120 if quick else 1200)
     used = set(k[7:] for k in ctx.hist if k.startswith('option:'))
     missing = sorted(set(paths) - used)
     ctx.extra['expressible_options_covered'] = '%d/%d' % (len(paths) - len(missing), len(paths))
@@ -568,7 +648,9 @@ def replay(ctx, path):
     if not c or GEN_ERROR:
         print('replay file names no input (proof/table obligation): re-run ./check C19; generation error: %s' % GEN_ERROR)
         return 2
-    if 'workflow' in c:
+    if 'table' in c or 'text' in c:
+        c19_text.explore(ctx, 0, 0, only_table=c.get('table'), only_text=c.get('text') if 'table' not in c else None)
+    elif 'workflow' in c:
         explore_instances(ctx, [c['workflow']], c.get('stream', 'C'))
     else:
         explore_components(ctx, [(c['options'], c.get('variables', {}))], c.get('stream', 'A'))
